@@ -28,14 +28,14 @@ def analyse(prop: str, src: str, overlay=None):
     ctx = Ctx(prog, prop)
     mod.run(ctx)
     # findings that are not listed as known: a violation that was found stays a violation, whatever else happened
-    fresh = split_findings(prop, ctx.findings)[1] if overlay is None else ctx.findings
+    fresh = split_findings(prop, ctx.findings)[1]
     if ctx.deferred and not fresh:
         # a clause that could not be analysed fails the run unless another clause already reports a violation (the
         # clause that was lost is printed with it)
         raise AnalysisError(ctx.deferred[0])
-    if overlay is None and not fresh:
-        # floors guard the real tree against vacuous *passes*; overlay runs (self-validation) edit the code on purpose
-        # and are judged by the findings they add or do not add
+    if not fresh:
+        # floors guard against vacuous *passes* - on the real tree and on the edited trees of the self-validation alike
+        # (a behaviour-preserving variant has to pass exactly as the real tree would)
         ctx.check_floors()
     return ctx, mod
 
